@@ -999,8 +999,8 @@ MUTATION_KINDS = ('end_deleted', 'end_swapped', 'start_deleted', 'else_duplicate
                   'duplicated_attribute', 'name_and_expr', 'neither_name_nor_expr',
                   'batch_only_without_batch', 'non_simple_prefix', 'valueless_needs_value',
                   'bad_shorthand_expression', 'bad_let_expression', 'bad_explicit_expression',
-                  'shorthand_and_name', 'near_continuation_tag')
-ATTR_KINDS = MUTATION_KINDS[8:19]
+                  'shorthand_and_name', 'near_continuation_tag', 'garbage_parameter')
+ATTR_KINDS = MUTATION_KINDS[8:19] + ('garbage_parameter',)
 # letters-only fragments / near misses of the continuation tag names: unknown tags, wherever they stand
 NEAR_CONTINUATIONS = ('els', 'lse', 'el', 'ls', 'se', 'e', 'l', 's', 'eli', 'lif', 'elf', 'exc', 'excep', 'cept',
                       'fin', 'final', 'inally', 'elsee', 'eelse', 'elifs', 'excepts', 'finallyy')
@@ -1182,6 +1182,16 @@ def mutations(toks, rng, per_kind=3):
             continue
         a.insert(rng.randint(1, len(a)), [nk, rng.choice(SIMPLE_NAMES + (a[0][1],)), rng.random() < 0.3])
         yield 'shorthand_and_name', t, i
+    # attribute text that is none of name, name=value, name="value", "value": a stray '=' (blank before or after
+    # the equals sign of a pair), a value without a name
+    for i in pick(tabled):
+        t = _copy(toks)
+        a = t[i]['attrs']
+        if not a:
+            continue        # in first position a lone word is the tag's unnamed value, whatever it looks like
+        junk = rng.choice(('=', '=v', '="v"', '=1', '=='))
+        a.insert(rng.randint(1, len(a)), [junk, None, False])
+        yield 'garbage_parameter', t, i
     # an unknown tag named like a fragment of a continuation tag, directly inside a block (or at top level)
     for i in pick(starts + [None]):
         t = _copy(toks)
